@@ -91,7 +91,7 @@ func (_this *Context) GetBuiltArrayAsString() string {
 //   - nextRunesBytes will contain the remaining complete runes. The last
 //     incomplete rune, if any, will be stripped out and buffered for the next
 //     call.
-func (_this Context) StreamStringData(data []byte) (firstRuneBytes []byte, nextRunesBytes []byte) {
+func (_this *Context) StreamStringData(data []byte) (firstRuneBytes []byte, nextRunesBytes []byte) {
 	nextRunesBytes = data
 
 	remainderLength := len(_this.utf8RemainderBuffer)
@@ -104,7 +104,8 @@ func (_this Context) StreamStringData(data []byte) (firstRuneBytes []byte, nextR
 			_this.utf8RemainderBuffer = _this.utf8RemainderBuffer[:remainderLength+bytesCopied]
 			return
 		}
-		firstRuneBytes = _this.utf8RemainderBuffer
+		// Copy: the backing array is reused for the next remainder below.
+		firstRuneBytes = append([]byte(nil), _this.utf8RemainderBuffer...)
 		_this.utf8RemainderBuffer = _this.utf8RemainderBuffer[:0]
 	}
 
